@@ -77,7 +77,8 @@ RootAttrs(ak) ==
   CASE ak = 1 -> <<A("a1", T("INTEGER"), FALSE), A("a2", T("REAL"), TRUE)>>
     [] ak = 2 -> <<A("a1", T("INTEGER"), FALSE), A("a2", T("colour"), FALSE), A("a3", T("lab"), TRUE), A("a4", Agg("LIST", 1, 3, "INTEGER"), FALSE)>>
     [] ak = 3 -> <<A("a1", T("INTEGER"), FALSE), A("a2", T("pick"), TRUE), A("a3", Agg("SET", 0, -1, "STRING"), FALSE), A("a4", T("BOOLEAN"), FALSE),
-                   A("a5", T("LOGICAL"), TRUE), A("a6", T("BINARY"), TRUE), A("a7", T("NUMBER"), FALSE), A("a8", T("ilist"), TRUE)>>
+                   A("a5", T("LOGICAL"), TRUE), A("a6", T("BINARY"), TRUE), A("a7", T("NUMBER"), FALSE), A("a8", T("ilist"), TRUE),
+                   A("a9", T("STRING"), FALSE), A("a10", T("REAL"), FALSE), A("a11", T("lab"), FALSE)>>
 Ent(n, sup, abs, sx, attrs) == [name |-> n, supers |-> sup, abstract |-> abs, sexpr |-> sx, attrs |-> attrs,
                                 derive |-> <<>>, inverse |-> <<>>, uniq |-> <<>>, where |-> <<>>]
 Supers(c, e) ==
